@@ -352,7 +352,8 @@ fn run_hdr(r: &mut Rng, n: u64) {
     let bodies: Vec<&[u8]> = vec![br#"{"version":3,"sources":["a"],"names":[],"mappings":"AAAA"}"#, br#"{"version":3,"sections":[{"offset":{"line":0,"column":0},"map":{"version":3,"sources":["a"],"names":[],"mappings":"AAAA"}}]}"#,
         br#"{"version":3,"sources":["a"],"names":[],"mappings":"AAAA","x_facebook_sources":[null]}"#, br#"{"file":"x"}"#, br#"[1,2]"#];
     let headers: Vec<&[u8]> = vec![b"", b")]}'\n", b")]}'\r\n", b")]}'\r", b")]}'", b")\n", b"]\r\r\n", b"}garbage)]}\n", b"'\n\n", b")]}\rx\n", b"x)]}\n", b")\r\n\r\n", b")]}'\r\r\n", b"'\r", b"]\n\r\n", b"}{\n",
-        b")]}'\r)]}'\n", b")\r]\n", b"]\r}\r\n", b"'\r'\r'\n", b")\r\r", b"}\r)"];
+        b")]}'\r)]}'\n", b")\r]\n", b"]\r}\r\n", b"'\r'\r'\n", b")\r\r", b"}\r)",
+        b")]}'\n)]}'\n", b")\n]\r\n", b"'\r\n'\n'\n", b")]}'\n \n", b"\n", b" \n", b"\n)]}'\n"];
     for i in 0..n {
         let body = bodies[if r.below(3) == 0 { r.below(bodies.len() as u64) as usize } else { 0 }];
         let mut doc = headers[r.below(headers.len() as u64) as usize].to_vec(); let cut = [0usize, 0, 0, 1, 7][r.below(5) as usize].min(body.len()); doc.extend_from_slice(&body[..body.len() - cut]);
@@ -447,6 +448,27 @@ fn run_fname_gen(r: &mut Rng, n: u64, any_col: bool) {
             let name = match here { Some(w) if r.below(10) < 8 => w, _ => cands[r.below(cands.len() as u64) as usize].to_string() };
             let out = match catch_unwind(AssertUnwindSafe(|| sv.get_original_function_name(sm.get_token(ti).unwrap(), &name).map(|s| s.to_string()))) {
                 Ok(Some(s)) => s.trim_start_matches('n').to_string(), Ok(None) => "none".into(), Err(_) => "panic".into() };
+            // the same question through the other public entry points (position based): SourceMap, DecodedMap, an index with one section at
+            // (0,0) holding the map as a regular and as a Hermes section. Only when the token is the first one at its position (lookup finds it).
+            let mut out = out;
+            let first_at_pos = ti == 0 || (sorted[ti - 1].dl, sorted[ti - 1].dc) != (sorted[ti].dl, sorted[ti].dc);
+            if !any_col && first_at_pos && out != "panic" {
+                let (l, c) = (sorted[ti].dl, sorted[ti].dc);
+                let norm = |x: Option<&str>| -> String { x.map(|s| s.trim_start_matches('n').to_string()).unwrap_or("none".into()) };
+                let apis = catch_unwind(AssertUnwindSafe(|| {
+                    let a = norm(sm.get_original_function_name(l, c, &name, &sv));
+                    let dm = sourcemap::DecodedMap::Regular(sm.clone()); let b = norm(dm.get_original_function_name(l, c, Some(&name), Some(&sv)));
+                    let ix = sourcemap::SourceMapIndex::new(None, vec![sourcemap::SourceMapSection::new((0, 0), None, Some(dm))]); let cc = norm(ix.get_original_function_name(l, c, &name, &sv));
+                    let mut doc: serde_json::Value = { let mut o = vec![]; sm.to_writer(&mut o).unwrap(); serde_json::from_slice(&o).unwrap() };
+                    doc.as_object_mut().unwrap().insert("x_facebook_sources".into(), serde_json::json!([[{"names": ["scopeA", "scopeB"], "mappings": "AAA,CCC"}]]));
+                    let hm = sourcemap::decode_slice(&serde_json::to_vec(&doc).unwrap()).unwrap();
+                    // the writer drops repeated tokens: only compare when the Hermes copy has the same tokens
+                    let same = match &hm { sourcemap::DecodedMap::Hermes(h) => h.get_token_count() == sm.get_token_count(), _ => false };
+                    let ixh = sourcemap::SourceMapIndex::new(None, vec![sourcemap::SourceMapSection::new((0, 0), None, Some(hm))]);
+                    let d = if same { norm(ixh.get_original_function_name(l, c, &name, &sv)) } else { a.clone() };
+                    vec![a, b, cc, d] })).unwrap_or(vec!["panic".into()]);
+                if apis.iter().any(|x| x != &out) { out = format!("api-mismatch:{}:{}", out, apis.join("/")); }
+            }
             println!("r{}_{}\t{}\t{}\t{}\t{}\t{}\t{}", i, q, if any_col { "fname_any" } else { "fname" }, hex(text.as_bytes()), toks_str(&sorted), ti, hex(name.as_bytes()), out);
         }
     }
@@ -461,7 +483,10 @@ fn own_vlq(mut n: i64, out: &mut String) {
 fn run_decode(r: &mut Rng, n: u64, with_faults: bool) {
     let spool = ["a.js", "b.js", "", "/abs/c.js", "http://x/d.js", "q/\u{e9}.js"];
     for i in 0..n {
-        let nsrc = r.below(4) as usize; let nn = r.below(4) as usize;
+        // explicit first cases of the faulted stream: every foreign character of the list at every offset of a valid segment
+        const FOREIGN: [char; 21] = ['!', ' ', '=', '-', '_', '\u{e9}', '\u{7f}', '\u{0}', '"', '\\', '\u{141}', '\u{143}', '\u{4e2b}', '\u{1f441}', '\u{ff21}', '\u{80}', '\u{c1}', '\u{f0}', '\u{eb}', '\u{f5}', '\u{ef}'];
+        let explicit = with_faults && (i as usize) < FOREIGN.len() * 5;
+        let nsrc = if explicit { 1 } else { r.below(4) as usize }; let nn = if explicit { 0 } else { r.below(4) as usize };
         // sources with nulls, names with numbers
         let sources: Vec<Option<&str>> = (0..nsrc).map(|_| if r.below(6) == 0 { None } else { Some(spool[r.below(spool.len() as u64) as usize]) }).collect();
         let names: Vec<Result<String, u32>> = (0..nn).map(|k| if r.below(5) == 0 { Err(r.below(1000) as u32) } else { Ok(format!("n{}", k)) }).collect();
@@ -503,7 +528,7 @@ fn run_decode(r: &mut Rng, n: u64, with_faults: bool) {
                     if hit && fault == 6 { own_vlq(0, &mut seg); if arity == 5 { own_vlq(0, &mut seg); } fault_done = true; }   // 5 -> 7 or 4 -> 5 fields (the latter may be valid)
                 }
                 if hit && fault == 7 { own_vlq(1, &mut seg); fault_done = true; }                       // 1 -> 2, 4 -> 5 (maybe valid), 5 -> 6
-                if hit && fault == 8 { let at = r.below(seg.len() as u64 + 1) as usize; seg.insert(at, ['!', ' ', '=', '-', '_', '\u{e9}', '\u{7f}', '\u{0}', '"', '\\', '\u{141}', '\u{143}', '\u{4e2b}', '\u{1f441}', '\u{ff21}', '\u{80}', '\u{c1}'][r.below(17) as usize]); fault_done = true; }   // a foreign byte anywhere in the segment
+                if hit && fault == 8 { let at = r.below(seg.len() as u64 + 1) as usize; seg.insert(at, ['!', ' ', '=', '-', '_', '\u{e9}', '\u{7f}', '\u{0}', '"', '\\', '\u{141}', '\u{143}', '\u{4e2b}', '\u{1f441}', '\u{ff21}', '\u{80}', '\u{c1}', '\u{f0}', '\u{eb}', '\u{f5}', '\u{ef}'][r.below(21) as usize]); fault_done = true; }   // a foreign byte anywhere in the segment
                 if hit && fault == 9 { seg.push('g'); fault_done = true; }                              // continuation digit at the end
                 if hit && fault == 10 { seg.push_str(["gggggggggggggB", "gggggggggggggA", "2ggggggggggggA", "ggggggggggggggggA", "hggggggggggggggB"][r.below(5) as usize]); fault_done = true; }   // 14+ digits, also with zero payloads only
                 if hit && fault == 11 { seg.push_str("////////////f"); fault_done = true; }            // 13 digits whose top bits are lost
@@ -511,6 +536,9 @@ fn run_decode(r: &mut Rng, n: u64, with_faults: bool) {
             }
         }
         let _ = nseg;
+        let (mappings, fault, fault_done) = if explicit { let ch = FOREIGN[i as usize / 5];
+            // shapes in which a reader that mistook the character's bytes for digits would still see 1, 4 or 5 fields
+            (match i % 5 { 0 => format!("AAAA,EA{}A", ch), 1 => format!("AAAA,E{}AA", ch), 2 => format!("AAAA,{}A", ch), 3 => format!("AAAA,E{}", ch), _ => format!("{}", ch) }, 8, true) } else { (mappings, fault, fault_done) };
         let mut doc = serde_json::Map::new();
         let mut keys: Vec<(&str, serde_json::Value)> = vec![];
         if r.below(8) != 0 { keys.push(("version", serde_json::json!(3))); }
@@ -597,22 +625,28 @@ fn run_hermes(r: &mut Rng, n: u64) {
         let mut doc: serde_json::Value = { let mut out = vec![]; sm.to_writer(&mut out).unwrap(); serde_json::from_slice(&out).unwrap() };
         // function maps: abstract entries (line 1-based, column, name index), strictly increasing unless `messy`
         let nfb = match r.below(6) { 0 => nsrc + 1, 1 => nsrc.saturating_sub(1), _ => nsrc };
-        let mut fb_json = vec![]; let mut fb_descr = vec![];
-        for _ in 0..nfb {
+        let mut fb_json = vec![]; let mut fb_descr = vec![]; let mut prev_entries: Option<Vec<(u32, u32, u32)>> = None;
+        for fbi in 0..nfb {
             match r.below(8) {
                 0 => { fb_json.push(serde_json::Value::Null); fb_descr.push("null".to_string()); }
                 1 => { fb_json.push(serde_json::json!([])); fb_descr.push("E".to_string()); }
                 k => {
-                    let nnames = 1 + r.below(4) as usize; let names: Vec<String> = (0..nnames).map(|x| format!("f{}", x)).collect();
-                    let messy = r.below(10) == 0;
+                    // names differ from source to source; an adjacent source sometimes has the very same mappings (same entries, same string)
+                    let reuse = prev_entries.is_some() && r.below(4) == 0;
+                    let nnames = if reuse { 5 } else { 1 + r.below(4) as usize }; let names: Vec<String> = (0..nnames).map(|x| format!("f{}_{}", fbi, x)).collect();
+                    let messy = !reuse && r.below(10) == 0;
                     let mut entries: Vec<(u32, u32, u32)> = vec![]; let (mut l, mut c) = (1u32, 0u32);
+                    if reuse { entries = prev_entries.clone().unwrap(); } else {
                     for e in 0..r.below(7) {
                         if e > 0 || r.below(2) == 0 { if r.below(3) == 0 { l += 1 + r.below(2) as u32; c = r.below(4) as u32; } else { c += 1 + r.below(4) as u32; } }
                         if messy && r.below(2) == 0 { c = c.saturating_sub(2); }
                         entries.push((l, c, if r.below(8) == 0 { nnames as u32 + 1 } else { r.below(nnames as u64) as u32 }));
-                    }
+                    } }
+                    if !messy { prev_entries = Some(entries.clone()); }
                     // own renderer: ';' between lines (line delta also written explicitly in field 3), ',' between segments
                     let mut s = String::new(); let (mut pl, mut pn) = (1i64, 0i64); let mut cur_line = 1u32; let mut pc = 0i64; let mut first = true;
+                    let mut r2 = Rng(entries.iter().fold(7u64, |a, e| a.wrapping_mul(31).wrapping_add(e.0 as u64 * 1000 + e.1 as u64 * 10 + e.2 as u64)));   // rendering choices depend on the entries only
+                    let r = &mut r2;
                     for &(el, ec, en) in &entries {
                         if el != cur_line && r.below(2) == 0 { s.push(';'); pc = 0; first = true; }     // a ';' resets the column but lines come from field 3
                         cur_line = el;
@@ -906,7 +940,7 @@ fn run_builder(r: &mut Rng, n: u64) {
                 1 => { let s = npool[r.below(npool.len() as u64) as usize]; ops.push(format!("N={}", hex(s.as_bytes()))); rets.push(b.add_name(s).to_string()); }
                 2 => { let rt = ["", "root", "root/"][r.below(3) as usize]; ops.push(format!("R={}", hex(rt.as_bytes()))); b.set_source_root(Some(rt)); rets.push("-".into()); }
                 3 if nsrc > 0 => { let k = r.below(nsrc as u64) as u32; let c = match r.below(3) { 0 => None, 1 => Some(""), _ => Some("body") }; ops.push(format!("C{}:{}", k, opt_hex(c))); b.set_source_contents(k, c); rets.push("-".into()); }
-                4 if nsrc > 0 => { let k = r.below(nsrc as u64) as u32; ops.push(format!("I{}", k)); b.add_to_ignore_list(k); rets.push("-".into()); }
+                4 => { let k = r.below(nsrc as u64 + 3) as u32; ops.push(format!("I{}", k)); b.add_to_ignore_list(k); rets.push("-".into()); }   // also ids whose source is added later (or never)
                 5 => { let f = [None, Some("x.js"), Some("")][r.below(3) as usize]; ops.push(format!("F{}", opt_hex(f))); b.set_file(f); rets.push("-".into()); }
                 6 => { let d = if r.below(3) == 0 { None } else { Some(1 + r.below(3)) }; ops.push(format!("D{}", d.map(|k| k.to_string()).unwrap_or("-".into())));
                        b.set_debug_id(d.map(|k| format!("00000000-0000-0000-0000-0000000000{:02x}", k).parse().unwrap())); rets.push("-".into()); }
